@@ -163,6 +163,9 @@ def check_blind(case, acc):
     acc.tag("blind_steps_log_compared", checked)
 
 
+_FILTERS_SET = []
+
+
 def check_adopt(case, acc):
     """A *_children hook (or a per-child hook) that files ANOTHER node below the receiver while the call is running, and a
     constructor whose post-hook raises: the protocol holds for what is there when each phase runs.
@@ -267,8 +270,10 @@ def check_case(case, acc):
     # that is in order emits no warning, and an exception raised by a hook is not replaced by one
     import warnings
 
-    if not (warnings.filters and warnings.filters[0][0] == "error" and warnings.filters[0][2] is Warning):
+    if not _FILTERS_SET:
         warnings.simplefilter("error")
+        warnings.filterwarnings("default", module=r"hypothesis(\..*)?")  # the test library's own notices stay notices
+        _FILTERS_SET.append(True)
     if case.get("kind") == "blind":
         return check_blind(case, acc)
     if case.get("kind") == "adopt":
